@@ -35,7 +35,7 @@ def build(repo='/repo'):
 
 def run(scenario, args, repo='/repo', timeout=300):
     b = build(repo)
-    p = subprocess.run([b, scenario, json.dumps(args)], capture_output=True, text=True, timeout=timeout)
+    p = subprocess.run([b, scenario, '-'], input=json.dumps(args), capture_output=True, text=True, timeout=timeout)
     if p.returncode != 0:
         return dict(panicked=True, stderr=p.stderr[-800:], rc=p.returncode)
     return json.loads(p.stdout.strip().split('\n')[-1])
